@@ -110,22 +110,27 @@ func H_Modules() {
 	var names [4][]string
 	c1 := godi.NewCollection()
 	var err1 error
+	// the option lists are built once, as slices, and applied twice (to c1 and,
+	// further down, to a third collection): applying a module tree must not
+	// alter the lists it was given
+	var top []godi.ModuleOption
 	switch shape {
 	case 0:
 		depth = [4]int{1, 2, 3, 1}
 		names = [4][]string{{"m0"}, {"m0", "m1"}, {"m0", "m1", "m2"}, {"m0"}}
-		m2 := godi.NewModule("m2", es[2].option())
-		m1 := godi.NewModule("m1", es[1].option(), m2)
-		err1 = c1.AddModules(godi.NewModule("m0", es[0].option(), m1, es[3].option()))
+		m2 := godi.NewModule("m2", []godi.ModuleOption{es[2].option()}...)
+		m1 := godi.NewModule("m1", []godi.ModuleOption{es[1].option(), m2}...)
+		top = []godi.ModuleOption{godi.NewModule("m0", []godi.ModuleOption{es[0].option(), m1, es[3].option()}...)}
 	case 1:
 		depth = [4]int{1, 1, 1, 1}
 		names = [4][]string{{"m0"}, {"m0"}, {"m0"}, {"m0"}}
-		err1 = c1.AddModules(godi.NewModule("m0", es[0].option(), es[1].option(), es[2].option(), es[3].option()))
+		top = []godi.ModuleOption{godi.NewModule("m0", []godi.ModuleOption{es[0].option(), es[1].option(), es[2].option(), es[3].option()}...)}
 	case 2:
 		depth = [4]int{0, 1, 1, 0}
 		names = [4][]string{nil, {"m1"}, {"m1"}, nil}
-		err1 = c1.AddModules(es[0].option(), godi.NewModule("m1", es[1].option(), es[2].option()), nil, es[3].option())
+		top = []godi.ModuleOption{es[0].option(), godi.NewModule("m1", []godi.ModuleOption{es[1].option(), nil, es[2].option()}...), nil, es[3].option()}
 	}
+	err1 = c1.AddModules(top...)
 	// the twin: direct calls, left to right, stop at the first failure
 	c2 := godi.NewCollection()
 	var err2 error
@@ -182,6 +187,14 @@ func H_Modules() {
 	vrt.Assert(c1.Contains(kit.TypeI0) == c2.Contains(kit.TypeI0), "C20.contains_differs", "Contains differs for the interface type")
 	vrt.Assert(c1.ContainsKeyed(kit.TypeI0, "k1") == c2.ContainsKeyed(kit.TypeI0, "k1"), "C20.contains_differs", "ContainsKeyed differs for the interface type")
 	vrt.Assert(c1.Count() == c2.Count(), "C20.count_differs", "Count", c1.Count(), "vs", c2.Count())
+	// the same option list applied to a fresh collection gives the same collection again
+	c3 := godi.NewCollection()
+	err3 := c3.AddModules(top...)
+	vrt.Assert((err3 != nil) == (err2 != nil), "C20.reapplied_verdict_differs", "second application of the same option list returned", err3, "the direct calls", err2)
+	vrt.Assert(c3.Count() == c2.Count(), "C20.reapplied_count_differs", "second application of the same option list: Count", c3.Count(), "vs", c2.Count())
+	for _, t := range []int{0, 1, 2, 3} {
+		vrt.Assert(c3.Contains(kit.TypeS[t]) == c2.Contains(kit.TypeS[t]) && c3.ContainsKeyed(kit.TypeS[t], "k1") == c2.ContainsKeyed(kit.TypeS[t], "k1"), "C20.reapplied_contains_differs", "second application: Contains differs for slot", t)
+	}
 	// ... and indistinguishable providers
 	kit.Reset()
 	p1, b1 := c1.Build()
